@@ -303,7 +303,10 @@ class TaskRef(Ref):
         # region-stack rule: execute enters the "task body" region, end leaves it
         if o == "x":
             if ssk and ssk[-1] == "B" and self.m == "6":
-                return ("fail", None, "Nanos6: task body region re-entered immediately")
+                # Legal by the body machine (the parent is paused, or Nanos6 relaxes nesting).  The Nanos6 model refuses it when
+                # no other subsystem region was opened in between (its subsystem channel rejects the repeated "task body" push;
+                # nOS-V allows it): recorded as known finding D17, matched through the cause tag.
+                why = why + " [cause=nanos6-body-region-reentry]"
             if len(ssk) >= self.depth + 2:
                 return ("ok", None, "legal (beyond explored depth)")
             ssk.append("B")
